@@ -263,6 +263,26 @@ func (fr *frame) builtin(bi *ssa.Builtin, cc *ssa.CallCommon, args []Value, g *T
 			al.ch.closed = Or(al.ch.closed, ag)
 		}
 		return nil, g
+	case "StringData":
+		return args[0], g // pseudo pointer: the string value itself
+	case "String":
+		if sv, ok := args[0].(StringV); ok {
+			return strSub(sv, BV(IntW, 0), args[1].(*Term)), g
+		}
+		if pv, ok := args[0].(PtrV); ok {
+			var sl SliceV
+			for _, al := range pv.alts {
+				if al.obj == nil {
+					sl.alts = append(sl.alts, SliceAlt{g: al.g, off: BV(IntW, 0), ln: BV(IntW, 0), cap: BV(IntW, 0)})
+					continue
+				}
+				if len(al.path) != 1 || al.path[0].idx == nil {
+					abort("unsafe.String of a pointer that is not a byte-array element")
+				}
+				sl.alts = append(sl.alts, SliceAlt{g: al.g, obj: al.obj, off: al.path[0].idx, ln: args[1].(*Term), cap: args[1].(*Term)})
+			}
+			return fr.bytesToString(sl, g, pos), g
+		}
 	case "print", "println":
 		return nil, g
 	case "recover":
@@ -416,7 +436,9 @@ func (fr *frame) appendCore(base SliceV, et types.Type, addN *Term, maxAdd int, 
 					continue
 				}
 				if v := elems(j); v != nil {
-					al.obj.val = fr.writePath(al.obj.val, []PathElem{{idx: BinBV("bvadd", al.off, BinBV("bvadd", al.ln, jt))}}, v, wg, pos)
+					fr.wpg = wg
+					al.obj.val = fr.writePath(al.obj.val, []PathElem{{idx: BinBV("bvadd", al.off, BinBV("bvadd", al.ln, jt))}}, v, relaxGuard(al.obj, wg), pos)
+					fr.wpg = nil
 				}
 			}
 			inPlace = SliceV{alts: []SliceAlt{{g: True, obj: al.obj, off: al.off, ln: newLen, cap: al.cap}}}
@@ -749,6 +771,7 @@ func (e *Engine) globalObj(gl *ssa.Global) *Object {
 	}
 	et := gl.Type().(*types.Pointer).Elem()
 	o := newObject(zero(et))
+	o.allocG = nil // a global exists on every path
 	o.name = gl.String()
 	e.globals[gl] = o
 	// error sentinels: a unique opaque error value per global
